@@ -2,6 +2,7 @@ import MJ.Proofs.CmpNumFloatEq
 import MJ.Proofs.CmpMap
 import MJ.Proofs.CmpLookup
 import MJ.Proofs.CollV
+import MJ.Proofs.CmpLen
 import MJ.Proofs.CmpF64Order
 import MJ.Proofs.CollGroup
 import MJ.Proofs.CollRuns
@@ -141,6 +142,38 @@ example :
 theorem map_from_pairs_sorted (ps : List (V × V)) (h : ∀ p ∈ ps, InRange p.1) :
     ∃ qs, mkMap .btree ps = .map qs ∧ (qs.map (·.1)).Pairwise (fun a b => cmpV a b = .lt) :=
   mkMap_btree_sorted ps h
+
+/-! ## reported lengths -/
+
+/-- `Enumerator::query_len` (the default of `Object::enumerator_len`, regenerated arm by arm from the
+    source): it answers `Some n` only for a stored count or an exact size hint `(n, Some(n))` — so,
+    the enumerator honouring the `size_hint` contract, `n` is the number of items it yields -/
+theorem query_len_exact_or_none (s : EnumShape) (count n : Nat) (hy : s.Yields count)
+    (h : queryLen s = some n) : n = count :=
+  queryLen_is_count s count n hy h
+
+/-- a `.filter(..)`-style hint `(0, Some(2))` over two items honours the contract and gives no length -/
+example : (EnumShape.hinted "KeyValueIter" 0 (some 2)).Yields 2 ∧ queryLen (.hinted "KeyValueIter" 0 (some 2)) = none ∧
+    queryLen (.hinted "KeyValueIter" 2 (some 2)) = some 2 := by
+  refine ⟨⟨by decide, by decide, by intro b h; cases h; decide⟩, by decide, by decide⟩
+
+/-- the Map/Map arm of `==` trusts the reported lengths (unequal → not equal; equal → only `a ⊆ b`
+    is checked).  With lengths that are exact or absent — which `query_len_exact_or_none` provides —
+    that is the map equality of the model, and therefore agrees with `cmp` and the hash
+    (`C07_partial`) -/
+theorem eq_map_agrees_with_cmp (la lb : Option Nat) (ps qs : List (V × V))
+    (ha : ∀ n, la = some n → n = ps.length) (hb : ∀ n, lb = some n → n = qs.length)
+    (na : NoNaN (.map ps)) (nb : NoNaN (.map qs)) (sa : SortedMaps (.map ps)) (sb : SortedMaps (.map qs))
+    (hc : noClash (.map ps) (.map qs) = true) :
+    (eqMapWithLen .btree la lb ps qs = true ↔ cmpV (.map ps) (.map qs) = .eq) ∧
+    (eqMapWithLen .btree la lb ps qs = true → hkey (.map ps) = hkey (.map qs)) := by
+  rw [eqMapWithLen_exact .btree la lb ps qs ha hb]
+  exact C07_partial _ _ na nb sa sb hc
+
+/-- without exactness the arm is wrong: a record reporting length 0 for two entries is not `==` to the
+    map with the same entries -/
+example : eqMapWithLen .btree (some 0) (some 2) [(.str [97], .none), (.str [98], .none)] [(.str [97], .none), (.str [98], .none)] = false := by
+  decide
 
 /-! ## dictionary lookup: all entry points agree -/
 
